@@ -37,7 +37,7 @@ ASSUMPTIONS = [
 PRES_TYPES = ("application/vnd.openxmlformats-officedocument.presentationml.presentation.main+xml",
               "application/vnd.ms-powerpoint.presentation.macroEnabled.main+xml")
 STRUCTURAL = ("presentationml.presentation", "presentationml.slide", "presentationml.notes", "drawingml.chart",
-              "presentationml.template", "presentationml.slideshow", "core-properties", "macroEnabled")
+              "presentationml.template", "presentationml.slideshow", "macroEnabled")
 _cache = {}
 
 
@@ -349,8 +349,8 @@ def run_fault_case(case, rec=None):
         compare(pkg, o1, "C16:saved:" + fk, drop_dangling=True)
         check_refs(pkg, o1, fk)
         # a deck that came without core properties gains them on first access: nothing it had may get lost by that
-        if any(f[0] == "no_core" for f in applied) or not any(
-                r.type.endswith("/core-properties") for r in o1.rels("/")):
+        # (also with core properties present: a part of another declared type in their place must not be doubled)
+        if True:
             with sut("C16:core-properties-after-open:" + fk):
                 prs.core_properties.author = "verif"
                 out4 = io.BytesIO()
